@@ -123,7 +123,7 @@ def build(seed, tier):
         elif c < 0.47:
             ops.append({'op': 'verify', 'plant': ro.random() < 0.5, 'at': ro.randint(0, 5)})
         elif c < 0.62:
-            ops.append({'op': 'tifa', 'plant': ro.random() < 0.6, 'at': ro.randint(0, 5)})
+            ops.append({'op': 'tifa', 'plant': ro.random() < 0.6, 'at': ro.randint(0, 5), 'flavour': ro.randint(0, 2)})
         elif c < 0.66:
             ops.append({'op': 'check_exists', 'n': ro.randint(0, 8)})
         elif c < 0.82:
@@ -236,6 +236,10 @@ def execute(spec):
                         at = real[op['at'] % len(real)]
                         if kind == 'verify':
                             lines[at] = lines[at] + ' = = 1'
+                        elif op.get('flavour', 0) % 3 == 1:
+                            lines[at] = 'for it%d in %d: pass' % (at, 7)          # iterating over a non-list
+                        elif op.get('flavour', 0) % 3 == 2:
+                            lines[at] = 'unused_name_%d = %d' % (at, at)          # never read afterwards
                         else:
                             lines[at] = 'zz%d = undefined_name_%d' % (at, at)
                         planted = at + 1          # local line (1-based) in the active code
@@ -386,15 +390,21 @@ def judge(spec, res):
         in_section = active and not stopped and not past_end
         if kind in ('verify', 'tifa') and o.get('planted_local_line') is not None and (in_section or stopped):
             want_line = cur_off + o['planted_local_line']
-            label_set = ('syntax_error', 'indentation_error') if kind == 'verify' else ('initialization_problem',)
+            fl = op.get('flavour', 0) % 3
+            if kind == 'verify':
+                label_set = ('syntax_error', 'indentation_error')
+            else:
+                label_set = [('initialization_problem',), ('iterating_over_non_list',), ('unused_variable',)][fl]
             hits = [f for f in o['new_feedback'] if f['label'] in label_set]
-            if kind == 'tifa':
+            if kind == 'tifa' and fl == 0:
                 hits = [f for f in hits if f.get('name_field') == 'undefined_name_%d' % (o['planted_local_line'] - 1)]
+            elif kind == 'tifa' and fl == 2:
+                hits = [f for f in hits if f.get('name_field') == 'unused_name_%d' % (o['planted_local_line'] - 1)]
             if not hits:
                 continue            # the planted defect was not diagnosed at all: not this property's business
             f = hits[0]
             if f['line'] != want_line:
-                viol('%s-line' % ('syntax' if kind == 'verify' else 'tifa'), 'defect planted on original line %d (section %d, local line %d); '
+                viol('%s-line' % ('syntax' if kind == 'verify' else 'tifa:%s' % label_set[0]), 'defect planted on original line %d (section %d, local line %d); '
                      'feedback located at %r' % (want_line, k, o['planted_local_line'], f['line']),
                      '/section=%s' % ('prologue' if k == 0 else 'later'))
                 return vs
